@@ -13,14 +13,15 @@ THEOREMS = [
     "Typedpy.C12.derive_fields",
     "Typedpy.C12.derive_field_same",
     "Typedpy.C12.derive_field_behaviour",
-    "Typedpy.C12.mem_filter_noDefault",
+    "Typedpy.C12.mem_filter_needsValue",
+    "Typedpy.C12.needsValue_noDefault",
     "Typedpy.C12.memberHasDefault_derived",
     "Typedpy.C12.derive_required_partial",
     "Typedpy.C12.derive_not_subclass",
     "Typedpy.C12.derive_unknown_name_TypeError",
     "Typedpy.C12.derive_pure",
-    "Typedpy.C12.derive_ignore_none_partial",
-    "Typedpy.C12.allRequired_constant_AttributeError",
+    "Typedpy.C12.derive_ignore_none",
+    "Typedpy.C12.allRequired_keeps_constants",
     "Typedpy.C12.hasStructure_add",
     "Typedpy.C12.derived_keysNodup",
     "Typedpy.C12.deriveMany_field_same",
@@ -29,7 +30,7 @@ THEOREMS = [
     "Typedpy.C12.deriveMany_not_subclass",
     "Typedpy.C12.deriveMany_pure",
     "Typedpy.C12.extended_derived_field_same",
-    "Typedpy.C12.inherited_ignore_none_dropped",
+    "Typedpy.C12.inherited_ignore_none_kept",
     "Typedpy.C12.allRequired_constant_example",
     "Typedpy.C12.extend_drops_required",
     "Typedpy.C12.derive_example",
